@@ -44,7 +44,9 @@ type Rec struct {
 func (r *Rec) Label(l string) { r.Labels = append(r.Labels, l) }
 
 type Check struct {
-	ID   string
+	ID string
+	// Part distinguishes several tests serving one property (used in replay file names).
+	Part string
 	Rule string
 	// Gen draws a case; it must be JSON-serialisable and round-trip through New.
 	Gen func(t *rapid.T) interface{}
@@ -64,6 +66,7 @@ type knownFinding struct {
 	What     string `json:"what"`
 	Witness  string `json:"witness"`
 	Commit   string `json:"commit,omitempty"`
+	Part     string `json:"part,omitempty"` // which test of the property the witness belongs to
 }
 
 type shard struct {
@@ -193,7 +196,11 @@ func (ck *Check) Main(t *testing.T) {
 		sum := sha256.Sum256(caseJSON)
 		dir := filepath.Join(Root(), "replays", ck.ID)
 		os.MkdirAll(dir, 0o755)
-		p := filepath.Join(dir, "fail-"+hex.EncodeToString(sum[:6])+".json")
+		name := "fail-"
+		if ck.Part != "" {
+			name += ck.Part + "-"
+		}
+		p := filepath.Join(dir, name+hex.EncodeToString(sum[:6])+".json")
 		ioutil.WriteFile(p, caseJSON, 0o644)
 		st.sh.Violations++
 		fmt.Printf("VIOLATION property=%s replay=%s\n", ck.ID, p)
@@ -264,7 +271,7 @@ func (ck *Check) Main(t *testing.T) {
 
 	// 1. witnesses of open findings and regression inputs of fixed ones
 	for _, k := range known {
-		if k.Witness == "" {
+		if k.Witness == "" || k.Part != ck.Part {
 			continue
 		}
 		p := filepath.Join(Root(), k.Witness)
